@@ -310,6 +310,72 @@ fn run_parse(c: &Value, rng: &mut StdRng, lines: &mut Vec<String>) {
     }
 }
 
+/// Position of the peer id inside a multiaddress: an address of layout class `c`, built from
+/// components, in binary and textual form, through `PeerId::try_from_multiaddr`.
+fn run_maddr(c: &Value, rng: &mut StdRng, lines: &mut Vec<String>) {
+    let fresh = |rng: &mut StdRng| -> PeerId {
+        match rng.gen_range(0..3) {
+            0 => PeerId::from_public_key_protobuf(&rand_bytes(rng, 36)),   // inlined key
+            1 => PeerId::from_public_key_protobuf(&rand_bytes(rng, 80)),   // hashed key
+            _ => PeerId::from_bytes(&[vec![0x00, 0x20], rand_bytes(rng, 32)].concat()).unwrap(),
+        }
+    };
+    let (a, b) = (fresh(rng), fresh(rng));
+    let base = match rng.gen_range(0..3) {
+        0 => Multiaddr::empty().with(Protocol::Ip4(rng.gen::<[u8; 4]>().into())).with(Protocol::Tcp(rng.gen())),
+        1 => Multiaddr::empty().with(Protocol::Ip6(rng.gen::<[u8; 16]>().into())).with(Protocol::Udp(rng.gen())).with(Protocol::QuicV1),
+        _ => Multiaddr::empty().with(Protocol::Dns("relay.example.org".into())).with(Protocol::Tcp(443)),
+    };
+    let follow = |addr: Multiaddr, what: &str, rng: &mut StdRng| -> Multiaddr {
+        match what {
+            "last" => addr,
+            "circuit" => addr.with(Protocol::P2pCircuit),
+            _ => match rng.gen_range(0..3) {
+                0 => addr.with(Protocol::Ws("/".into())),
+                1 => addr.with(Protocol::Tcp(rng.gen())),
+                _ => addr.with(Protocol::Ip4(rng.gen::<[u8; 4]>().into())),
+            },
+        }
+    };
+    let n = c["n"].as_u64().unwrap();
+    let mut addr = base;
+    if n == 0 {
+        addr = follow(addr, c["f"].as_str().unwrap(), rng);
+    } else {
+        addr = follow(addr.with(Protocol::P2p(a.into())), c["f"].as_str().unwrap(), rng);
+    }
+    if n == 2 {
+        let second = if c["same"].as_bool().unwrap() { a } else { b };
+        addr = follow(addr.with(Protocol::P2p(second.into())), c["s"].as_str().unwrap(), rng);
+    }
+    let extra = fresh(rng);
+    for form in ["struct", "binary", "text"] {
+        let parsed: Option<Multiaddr> = match form {
+            "struct" => Some(addr.clone()),
+            "binary" => Multiaddr::try_from(addr.to_vec()).ok(),
+            _ => addr.to_string().parse().ok(),
+        };
+        let Some(m) = parsed else { panic!("harness bug: multiaddress {addr} does not re-parse ({form})") };
+        let got = match catch(|| PeerId::try_from_multiaddr(&m)) {
+            Err(_) => "panic",
+            Ok(None) => "none",
+            Ok(Some(p)) if p == a => "A",
+            Ok(Some(p)) if p == b => "B",
+            Ok(Some(_)) => "other",
+        };
+        // appending /p2p/<p> to any address and reading back gives p, in every form
+        let append_rt = catch(|| {
+            let with = m.clone().with(Protocol::P2p(extra.into()));
+            PeerId::try_from_multiaddr(&with) == Some(extra)
+                && Multiaddr::try_from(with.to_vec()).ok().and_then(|x| PeerId::try_from_multiaddr(&x)) == Some(extra)
+                && with.to_string().parse::<Multiaddr>().ok().and_then(|x| PeerId::try_from_multiaddr(&x)) == Some(extra)
+        })
+        .unwrap_or(false);
+        let got = if fault("maddr-first") && n >= 1 { "A" } else { got };
+        lines.push(jline(json!({"e": "maddr", "c": c, "form": form, "got": got, "append_rt": append_rt, "addr": m.to_string()})));
+    }
+}
+
 fn expected_id(enc: &[u8]) -> Vec<u8> {
     if enc.len() <= 42 {
         let mut v = vec![0x00, enc.len() as u8];
@@ -401,6 +467,11 @@ fn main() {
         if cl["kind"] == "parse" {
             for _ in 0..per_class {
                 run_parse(c, &mut rng, &mut lines);
+                nparse += 1;
+            }
+        } else if cl["kind"] == "maddr" {
+            for _ in 0..per_class {
+                run_maddr(c, &mut rng, &mut lines);
                 nparse += 1;
             }
         } else if c["kind"] == "ed25519" {
